@@ -16,7 +16,7 @@ Ns == {n \in Base \cup Around(Thresholds) \cup (IF Tier = "quick" THEN {} ELSE {
 Ts == IF Tier = "quick" THEN {0, 1, 3, 16, 64, 1024} ELSE {0, 1, 2, 3, 5, 8, 16, 17, 63, 64, 65, 128, 1024}
 Blank == [kind |-> "api", n |-> 0, tasks |-> 0, mont |-> TRUE, small |-> 0, points |-> "srs", scalars |-> "rnd", c |-> 0, split |-> FALSE]
 PCl == {"srs", "dup", "withid", "flip", "proj", "same", "neg"}
-SCl == {"rnd", "zero", "one", "edge", "ones", "half", "oneword", "limbs", "mont", "asmont"}
+SCl == {"rnd", "zero", "one", "edge", "ones", "half", "oneword", "limbs", "mont", "asmont", "aligned"}
 Cases ==
   {[Blank EXCEPT !.n = n, !.tasks = t, !.mont = m] : n \in Ns, t \in Ts, m \in BOOLEAN}
   \cup {[Blank EXCEPT !.n = n, !.tasks = t, !.points = p, !.scalars = s, !.mont = (n % 2 = 1)] : n \in {1, 2, 3, 17, 64, 256, 300}, t \in {0, 3, 16}, p \in PCl, s \in SCl}
